@@ -24,6 +24,7 @@ import os
 
 from ..gen import c03_common as K
 from ..gen import c04_gen as G4
+from ..gen import c04_hist as HI
 
 PID = "C04"
 COQ_HEADER = ("From Coq Require Import List NArith ZArith Bool.\nImport ListNotations.\n"
@@ -78,8 +79,24 @@ HAND = [
     # one donor atom gives two hydrogens to two recipients (one h_pairs component with two recipients: first-fit pairing of _explicit_h)
     ("double-donor", "[S:1]([H:4])[H:5].[CH2:2]=[CH2:3]>>[S:1].[CH2:2]([H:4])[CH2:3][H:5]"),
     ("double-donor-amine", "[CH3:6][N:1]([H:4])[H:5].[CH2:2]=[CH2:3]>>[CH3:6][N:1].[CH2:2]([H:4])[CH2:3][H:5]"),
+    # an UNCHANGED bond between two centre atoms (three-membered rings, 1,2-shifts): the substrate has a bond between two matched
+    # atoms that the centre pattern does not have (monomorphism, not induced embedding) -- run under all three strategies
+    ("meinwald-implicit", "[CH3:1][CH:2]1[CH2:3][O:4]1>>[CH3:1][C:2](=[O:4])[CH3:3]"),
+    ("meinwald-explicit", "[CH3:1][C:2]1([H:5])[CH2:3][O:4]1>>[CH3:1][C:2](=[O:4])[CH2:3][H:5]"),
+    ("glycidyl-ether", "[CH3:5][O:6][CH2:1][CH:2]1[CH2:3][O:4]1>>[CH3:5][O:6][CH2:1][C:2](=[O:4])[CH3:3]"),
+    ("wagner-meerwein", "[CH3:1][C:2]([CH3:5])([CH3:6])[CH2+:3]>>[CH3:1][C+:2]([CH3:5])[CH2:3][CH3:6]"),
+    ("aziridine-imine", "[CH3:1][CH:2]1[CH2:3][NH:4]1>>[CH3:1][C:2](=[NH:4])[CH3:3]"),
+    ("cyclopropane-open", "[CH2:1]1[CH2:2][CH2:3]1.[Br:4][Br:5]>>[Br:4][CH2:1][CH2:2][CH2:3][Br:5]"),
+    # degenerate: nothing changes (empty centre, empty pattern); two single-atom molecules; one atom
+    ("identity", "[CH3:1][OH:2]>>[CH3:1][OH:2]"),
+    ("salt", "[Na+:1].[Cl-:2]>>[Na:1][Cl:2]"),
     ("amide-charge", "[CH3:1][C:2](=[O:3])[Cl:4].[NH2-:5]>>[CH3:1][C:2](=[O:3])[NH2:5].[Cl-:4]"),
 ]
+
+ALL_STRATEGIES = {"meinwald-implicit", "meinwald-explicit", "glycidyl-ether", "wagner-meerwein", "aziridine-imine", "cyclopropane-open",
+                  "identity", "salt", "diels-alder", "suzuki-type"}
+# reactions used for the API-surface and history cases (small, one per feature: explicit H, charges, symmetric, 3-ring, two donors, H2)
+HIST_RX = ["sn2-explicit", "quaternisation", "diels-alder", "meinwald-explicit", "double-donor", "hydrogenation"]
 
 # corpus reactions left out of the QUICK sample only because one reactor run takes 10-300 s (VF2 on a symmetric
 # substrate); the thorough tier runs them (usp#21 full ITS backwards: original string only)
@@ -254,7 +271,31 @@ def prepare_all(cases, procs=16):
 
 # ------------------------------------------------------------------ implementation adapter
 
+_HMEMO = {}
+
+
+def history(case):
+    key = (case.get("rsmi"), case.get("core"), case.get("invert"), case.get("strategy"), case.get("hist"))
+    if _HMEMO.get("key") == key:
+        return _HMEMO["val"]
+    o = graph_level(case)
+    tgt = K.std_fit(case["rsmi"])
+    a, b = tgt.split(">>")
+    val = HI.run_history(case["rsmi"], bool(case["core"]), bool(case["invert"]), case.get("strategy", "all"), o["mode"], case["hist"], a, b, tgt)
+    _HMEMO["key"], _HMEMO["val"] = key, val
+    return val
+
+
 def impl(case):
+    if case.get("hist"):
+        base = _impl_plain(case)
+        if base == ["SKIP"]:
+            return base
+        return [base, [1 if rec["equal"] else 0 for rec in history(case)]]
+    return _impl_plain(case)
+
+
+def _impl_plain(case):
     pre = case.get("pre")
     if pre is not None and ("error" in pre or "skip" in pre):
         return ["SKIP"]
@@ -365,8 +406,12 @@ def coq_case(case):
     rm = pre["remaps"]
     cr = "None" if rm is None else "(Some (%s, %s))" % (K.cl([K.cN(n) for n in rm[0]]),
                                                         K.cl([K.cl(["(%s, %s)" % (K.cN(p), K.cN(h)) for p, h in x]) for x in rm[1]]))
-    return "run_c04 %s %s %s %s %s %s" % (K.cb(case["core"]), K.cb(case["invert"]), K.cb(pre.get("guard", False)),
+    term = "run_c04 %s %s %s %s %s %s" % (K.cb(case["core"]), K.cb(case["invert"]), K.cb(pre.get("guard", False)),
                                           _c_hostj(pre["G"]), _c_hostj(pre["H"]), cr)
+    if case.get("hist"):
+        k = sum(1 for st in HI.SCRIPTS[case["hist"]] if st[0] != "edit")
+        return "L [%s; pure_history %d%%nat]" % (term, k)
+    return term
 
 
 # ------------------------------------------------------------------ property oracle
@@ -413,6 +458,25 @@ def _sub_is_implicit_form(sub, host):
 
 
 def oracle(case):
+    fails = _oracle_plain(case)
+    if case.get("hist") and not (case.get("pre") or {}).get("skip"):
+        try:
+            recs = history(case)
+        except Exception as e:
+            return fails + [dict(clause="history-crash", detail="%s: %s" % (type(e).__name__, str(e)[:300]))]
+        base = "%s:%s:%s:%s" % (case.get("cid"), _tplkind(case), _dir(case), case["hist"])
+        for rec in recs:
+            if rec.get("demand") and rec.get("tgt_fresh") and not rec.get("tgt_shared"):
+                fails.append(dict(clause="history-lost", key="%s:%s:lost" % (base, rec["label"].replace(" ", "-")),
+                                  detail="step %d (%s): the reaction is among the results of a fresh evaluation but not of the shared objects; %s"
+                                         % (rec["step"], rec["label"], rec.get("detail", ""))))
+            elif not rec["equal"]:
+                fails.append(dict(clause="history-differs", key="%s:%s:differs" % (base, rec["label"].replace(" ", "-")),
+                                  detail="step %d (%s): %s" % (rec["step"], rec["label"], rec.get("detail", ""))))
+    return fails[:6]
+
+
+def _oracle_plain(case):
     """The property itself: Standardize both, apply the reaction's own template to the unmapped reactants (products,
     backwards) and look for the reaction among the standardised outputs.  Every miss is triaged (DESIGN C04 (i)-(v))."""
     K.quiet()
@@ -503,6 +567,8 @@ def _explained_by_outside(o):
 # ------------------------------------------------------------------ evidence helpers
 
 def nontrivial(case, obs):
+    if case.get("hist") and isinstance(obs, list) and len(obs) == 2 and isinstance(obs[0], list):
+        obs = obs[0]
     if not isinstance(obs, list) or not obs or obs[0] in ("SKIP", "EXC"):
         return False
     return bool(obs[5]) and (case.get("pre") or {}).get("nchanged", 0) >= 2
@@ -513,10 +579,18 @@ def distribution(cases, obss):
              explicit_rematch_path=0, outside_centre_change=0, corpus={}, distinct_reactions=0, comp_guard_region=0,
              rule_describes_pair={"E": 0, "I": 0}, glued_is_pair_before_explicit_h={"E": 0, "I": 0})
     rx = set()
+    d["history_scripts"] = {}
+    d["history_steps"] = 0
     for c, o in zip(cases, obss):
         if not isinstance(o, list) or not o or o[0] in ("SKIP", "EXC"):
             d["skipped"] += 1
             continue
+        if c.get("hist") and len(o) == 2 and isinstance(o[0], list):
+            d["history_scripts"][c["hist"]] = d["history_scripts"].get(c["hist"], 0) + 1
+            d["history_steps"] += len(o[1])
+            o = o[0]
+            if o and o[0] == "SKIP":
+                continue
         pre = c.get("pre") or {}
         for k, v in (("mode", pre.get("mode")), ("template", _tplkind(c)), ("direction", _dir(c)), ("strategy", c.get("strategy")),
                      ("variant", "original" if not c.get("variant") else "rewritten"), ("corpus", str(c.get("cid", "?")).split("#")[0].split(":")[0])):
@@ -573,6 +647,30 @@ def _mk(cid, r0, core, inv, strategy, k, rng):
                 cid=cid, rsmi=r, core=core, invert=inv, strategy=strategy, variant=k)
 
 
+def _mk_hist(hname, r, core, inv, strategy, script):
+    c = _mk("hand:" + hname, r, core, inv, strategy, 0, None)
+    c["kind"] = "history-" + script
+    c["name"] = "%s:hist:%s" % (c["name"], script)
+    c["hist"] = script
+    return c
+
+
+def _hist_cases(tier, rng):
+    hand = dict(HAND)
+    out = []
+    for hname in HIST_RX:
+        r = hand[hname]
+        for script in sorted(HI.SCRIPTS):
+            reads = HI.SCRIPTS[script][0][0] == "read"
+            combos = [(c, i) for c in (True, False) for i in (False, True)] if reads else [(c, False) for c in (True, False)]
+            if tier == "quick":
+                # reads of a shared reactor: backwards always (reversal / inversion state), one forward; object reuse: both templates
+                combos = ([(rng.random() < 0.5, True), (rng.random() < 0.5, False)] if reads else combos)
+            for core, inv in combos:
+                out.append(_mk_hist(hname, r, core, inv, rng.choice(["all", "comp", "bt"]) if reads else "all", script))
+    return out
+
+
 def gen_cases(tier, rng):
     K.quiet()
     C = K.corpus()
@@ -616,8 +714,16 @@ def gen_cases(tier, rng):
     for hname, r in HAND:
         for core in (True, False):
             for inv in (False, True):
-                for k in hand_k:
-                    cases.append(_mk("hand:" + hname, r, core, inv, rng.choice(strategies), k, rng))
+                if hname in ALL_STRATEGIES:
+                    # every strategy on the original string, a random one on each rewriting
+                    for st in strategies:
+                        cases.append(_mk("hand:" + hname, r, core, inv, st, 0, rng))
+                    for k in hand_k[1:]:
+                        cases.append(_mk("hand:" + hname, r, core, inv, rng.choice(strategies), k, rng))
+                else:
+                    for k in hand_k:
+                        cases.append(_mk("hand:" + hname, r, core, inv, rng.choice(strategies), k, rng))
+    cases += _hist_cases(tier, rng)
     return prepare_all(cases)
 
 
